@@ -78,11 +78,13 @@ func (v *cvTcd) IsDefault() bool { return true }
 // side table keyed by the pointer.
 var cvExt = map[interface{}]*cvBase{}
 
-func cvReg(v interface{}) {
+func cvReg(v interface{}) { cvExt[v] = &cvBase{} }
+
+// cvGC empties the side table between cases (never inside one: a case registers two values and reads both)
+func cvGC() {
 	if len(cvExt) > 1<<18 {
 		cvExt = map[interface{}]*cvBase{}
 	}
-	cvExt[v] = &cvBase{}
 }
 
 type cvKBool bool
